@@ -297,6 +297,20 @@ def r16a(model: Model, rr: RuleResult):
 
 @RULES.rule("C16", "R16b", "gradient overflow checks cover every coordinate with its otData range; apply_transform runs them", floor=14)
 def r16b(model: Model, rr: RuleResult):
+    # between computing the transformed gradient and checking it, the gradient is not adjusted: a coordinate that does not fit is an error, not something to re-derive
+    lfi = model.func("paint", "PaintLinearGradient.apply_transform")
+    lcfg = cfg_of(lfi)
+    chk = [c for c in calls_in(lfi) if callee_tail(c) == "check_overflows"]
+    rets = [st for st in walk_body(lfi) if isinstance(st, ast.Return) and isinstance(st.value, ast.Name)]
+    for st in rets:
+        defs = lcfg.reaching(lcfg.node_for(st), st.value.id)
+        adjusted = [d for d in defs if d.value is not None and not (isinstance(d.value, ast.Call) and norm(d.value.func) == "dataclasses.replace" and d.value.args and norm(d.value.args[0]) == "self")]
+        if adjusted:
+            rr.bad(lfi, adjusted[0].stmt or st, f"PaintLinearGradient.apply_transform re-derives the transformed gradient (`{short(adjusted[0].value, 70)}`) instead of returning the image of p0, p1, p2 "
+                   f"under the transform: under a non-similarity (non-uniform scale, skew) the image of p2 is not perpendicular to p0->p1, so the lines of constant colour turn; and a gradient "
+                   f"that used to raise OverflowError (wider encoding / error) is now silently changed", construct="PaintLinearGradient.apply_transform: gradient adjusted after mapping")
+        elif defs:
+            rr.ok("PaintLinearGradient.apply_transform returns replace(self, p_i = transform.map_point(self.p_i)) unadjusted")
     classes = extract(model)
     fixed = model.mod("fixed")
     consts = {}
